@@ -42,6 +42,14 @@ def prepare(work):
     deps = {f"#dep_{n}.suit": env(i, {f"#{n}_p{j}": bytes([i + j]) * (10 + 7 * j) for j in range(2)}) for i, n in enumerate(["radio", "app", "zeta", "alpha"])}
     root = env(9, {"#root_p": b"\x55" * 33}, deps)
     json.dump(root, open(f"{work}/hier.json", "w"))
+    # two hierarchies whose dependency envelopes have DIFFERENT names (hierarchical parses must not see each other's entries)
+    for tag, dnames in (("hierA", ["#alpha.suit", "#beta.suit"]), ("hierB", ["#gamma.suit"])):
+        h = env(1, {"#p_" + tag: b"\x01\x02"}, {n: env(i + 2, {f"#{tag}_{i}": bytes([i]) * 4}) for i, n in enumerate(dnames)})
+        json.dump(h, open(f"{work}/{tag}.json", "w"))
+    # short inline hex payloads (strings that could also be FILE names in some working directory)
+    hexd = env(3, {})
+    hexd["SUIT_Envelope_Tagged"]["suit-integrated-payloads"] = {"#config": "C0FFEE", "#ab": "AB", "#zero": "00"}
+    json.dump(hexd, open(f"{work}/hexpayloads.json", "w"))
     for n, (vendor, cls) in enumerate([("nordicsemi.com", "nRF54H20_sample_app"), ("nordicsemi.com", "nRF54H20_sample_rad"), ("acme.com", "acme_app")]):
         d = {"SUIT_Envelope_Tagged": {"suit-authentication-wrapper": {"SuitDigest": {"suit-digest-algorithm-id": "cose-alg-sha-256"}},
                                       "suit-manifest": {"suit-manifest-version": 1, "suit-manifest-sequence-number": n + 1,
@@ -75,6 +83,17 @@ def op_parse(work, out, i):
     cmd_create.main(input_file=f"{work}/d{i}.json", input_format="AUTO", output_file=f"{out}/p{i}.suit")
     cmd_parse.main(input_file=f"{out}/p{i}.suit", output_file=f"{out}/p{i}.yaml", output_format="AUTO", parse_hierarchy=False)
     cmd_parse.main(input_file=f"{out}/p{i}.suit", output_file=f"{out}/p{i}.json", output_format="AUTO", parse_hierarchy=True)
+
+
+def op_parse_hier_yaml(work, out, tag):
+    from suit_generator import cmd_create, cmd_parse
+    cmd_create.main(input_file=f"{work}/{tag}.json", input_format="AUTO", output_file=f"{out}/{tag}.suit")
+    cmd_parse.main(input_file=f"{out}/{tag}.suit", output_file=f"{out}/{tag}.yaml", output_format="AUTO", parse_hierarchy=True)
+    cmd_parse.main(input_file=f"{out}/{tag}.suit", output_file=f"{out}/{tag}_flat.yaml", output_format="AUTO", parse_hierarchy=False)
+
+
+def op_create_hexpayloads(work, out):
+    _create(work, out, "hexpayloads", "json")
 
 
 def op_mpi(work, out, vendor, cls):
@@ -132,6 +151,7 @@ OPS = {
     "create-json-0": (op_create_json, (0,)), "create-json-1": (op_create_json, (1,)), "create-json-2": (op_create_json, (2,)), "create-json-3": (op_create_json, (3,)),
     "create-yaml-0": (op_create_yaml, (0,)), "create-yaml-1": (op_create_yaml, (1,)), "create-yaml-2": (op_create_yaml, (2,)), "create-yaml-3": (op_create_yaml, (3,)),
     "create-with-files": (op_create_files, ()), "parse-0": (op_parse, (0,)), "parse-1": (op_parse, (1,)),
+    "parse-hierarchy-yaml-A": (op_parse_hier_yaml, ("hierA",)), "parse-hierarchy-yaml-B": (op_parse_hier_yaml, ("hierB",)), "create-hex-payloads": (op_create_hexpayloads, ()),
     "mpi-app": (op_mpi, ("nordicsemi.com", "nRF54H20_sample_app")), "mpi-acme": (op_mpi, ("acme.com", "nRF54H20_sample_app")),
     "cache-from-envelope": (op_cache_from_envelope, ()), "cache-from-payloads": (op_cache_from_payloads, ()),
     "boot-defaults": (op_boot_defaults, ()), "boot-config-a": (op_boot_config_a, ()), "boot-config-b": (op_boot_config_b, ()), "update": (op_update, ()),
